@@ -198,6 +198,9 @@ func (g *G) NodeSet(depth int, rel bool) *Expr {
 				}
 				if g.coin("varStep", 1, 2) {
 					f.Steps = g.RelPath(depth-1, 2).Steps
+					if g.coin("varDS", 1, 3) {
+						f.Steps[0].DS = true // $v//step
+					}
 				}
 				return f
 			}
@@ -218,6 +221,9 @@ func (g *G) NodeSet(depth int, rel bool) *Expr {
 		}
 		if g.coin("filterSteps", 1, 2) {
 			f.Steps = g.RelPath(depth-1, 2).Steps
+			if g.coin("filterDS", 1, 3) {
+				f.Steps[0].DS = true // (E)//step
+			}
 		}
 		return f
 	}
